@@ -162,17 +162,33 @@ Proof.
     destruct (eof_sent s) eqn:EE; cbn; auto.
 Qed.
 
-Lemma send_cs_SInv mk n s l :
-  (forall z, isData (mk z) = true) -> SInv s l ->
-  SInv (o_st (send_cs mk n s)) (l ++ o_msgs (send_cs mk n s)).
+Lemma reserve_SInv ext n s l :
+  closed s = false -> eof_sent s = false -> SInv s l ->
+  SInv (o_st (reserve ext n s)) (l ++ o_msgs (reserve ext n s)).
 Proof.
-  intros Hmk. unfold send_cs.
+  intros EC EE H. unfold reserve.
+  match goal with |- context [if ?b then mkO _ _ _ _ else _] => destruct b end; cbn.
+  - rewrite app_nil_r. apply (SInv_flags s); auto.
+  - unfold SInv in *; cbn. rewrite EC, EE in *. apply SI_data; auto. destruct ext; reflexivity.
+Qed.
+
+Lemma send_cs_SInv ext n s l :
+  SInv s l -> SInv (o_st (send_cs ext n s)) (l ++ o_msgs (send_cs ext n s)).
+Proof.
+  intros H. unfold send_cs.
   destruct (closed s) eqn:EC; cbn; [now rewrite app_nil_r|].
   destruct (eof_sent s) eqn:EE; cbn; [now rewrite app_nil_r|].
-  destruct (out_win s =? 0); cbn; [now rewrite app_nil_r|].
-  match goal with |- context [if ?b then mkO _ _ _ _ else _] => destruct b end; cbn.
-  - rewrite app_nil_r. apply SInv_flags; auto.
-  - unfold SInv; cbn. unfold SInv in *. rewrite EC, EE in *. apply SI_data; auto.
+  destruct (out_win s =? 0); [destruct (blocking s); cbn; now rewrite app_nil_r|].
+  apply reserve_SInv; auto.
+Qed.
+
+(* the blocking path: a woken writer re-tests closed / eof_sent before reserving *)
+Lemma wake_cs_SInv ext n s l :
+  SInv s l -> SInv (o_st (wake_cs ext n s)) (l ++ o_msgs (wake_cs ext n s)).
+Proof.
+  intros H. unfold wake_cs.
+  destruct (out_win s =? 0); destruct (closed s || eof_sent s) eqn:E; cbn; try now rewrite app_nil_r.
+  apply orb_false_iff in E as [EC EE]. apply reserve_SInv; auto.
 Qed.
 
 Lemma exec_SInv o s l : SInv s l -> SInv (o_st (exec o s)) (l ++ o_msgs (exec o s)).
@@ -232,6 +248,7 @@ Proof.
   - (* KWa *) cbn. rewrite app_nil_r. apply (SInv_flags s); auto.
   - (* KUnlink *)
     cbn. rewrite app_nil_r. unfold SInv; cbn. eapply SI_unlink. exact H.
+  - (* KBlocked *) apply wake_cs_SInv; auto.
 Qed.
 
 Lemma exec_ghost_mono o s :
@@ -242,7 +259,7 @@ Lemma exec_ghost_mono o s :
   (eof_sent s = true -> eof_sent (o_st (exec o s)) = true).
 Proof.
   destruct s as [a cl es er im pc ow mp ib so th gc gr]; cbn.
-  destruct o; cbn; unfold send_cs, close_internal, send_eof, check_add_window; cbn;
+  destruct o; cbn; unfold send_cs, wake_cs, reserve, close_internal, send_eof, check_add_window; cbn;
     destruct a, cl, es; cbn; split_ifs; repeat split; intros; subst; cbn; rewrite ?orb_true_r;
     try congruence; auto.
 Qed.
@@ -254,7 +271,7 @@ Lemma exec_dead o s :
   (is_send_op o = true -> o_res (exec o s) = r_exn SocketErr).
 Proof.
   destruct s as [a cl es er im pc ow mp ib so th gc gr]; cbn. intros -> ->.
-  destruct o; cbn; unfold send_cs, close_internal, send_eof, check_add_window; cbn;
+  destruct o; cbn; unfold send_cs, wake_cs, reserve, close_internal, send_eof, check_add_window; cbn;
     destruct a; cbn; split_ifs; repeat split; intros; try congruence; auto.
 Qed.
 
@@ -284,7 +301,8 @@ Lemma cstep_cases c t c' :
 Proof.
   unfold cstep. destruct (nth_error (thr c) t) as [th|] eqn:E; [|discriminate].
   destruct (pend th) as [|m r] eqn:EP.
-  - destruct (ops th) as [|o r] eqn:EO; [discriminate|]. intros H. injection H as <-.
+  - destruct (ops th) as [|o r] eqn:EO; [discriminate|].
+    destruct (negb (op_enabled o (sh c))); [discriminate|]. intros H. injection H as <-.
     right. exists th, o, r. auto.
   - intros H. injection H as <-. left. exists th, m, r. auto.
 Qed.
@@ -387,7 +405,8 @@ Lemma at_op_step c tid o c' :
   at_op c tid o -> cstep c tid = Some c' ->
   sh c' = o_st (exec o (sh c)) /\ ltr c' = ltr c ++ o_msgs (exec o (sh c)).
 Proof.
-  intros (t & r & E & EP & EO). unfold cstep. rewrite E, EP, EO. intros H. injection H as <-. cbn. auto.
+  intros (t & r & E & EP & EO). unfold cstep. rewrite E, EP, EO.
+  destruct (negb (op_enabled o (sh c))); [discriminate|]. intros H. injection H as <-. cbn. auto.
 Qed.
 
 Lemma close_answered s progs s1 c tid c' s2 c'' :
@@ -451,7 +470,7 @@ Lemma data_reserved_before o s :
   existsb isData (o_msgs (exec o s)) = true -> closed s = false /\ eof_sent s = false.
 Proof.
   destruct s as [a cl es er im pc ow mp ib so th gc gr]; cbn.
-  destruct o; cbn; unfold send_cs, close_internal, send_eof, check_add_window; cbn;
+  destruct o; cbn; unfold send_cs, wake_cs, reserve, close_internal, send_eof, check_add_window; cbn;
     destruct a, cl, es; cbn; split_ifs; intros; try discriminate; auto.
 Qed.
 
@@ -488,3 +507,14 @@ Proof.
   split; [eexists; eexists; repeat split; reflexivity|].
   repeat split.
 Qed.
+
+(* the blocking path: a writer blocked on a zero window, shutdown_write by another thread, then a
+   WINDOW_ADJUST from the peer: the woken writer returns 0 and sends nothing after the EOF *)
+Lemma blocked_writer_refused :
+  exists c,
+    crun (init_cfg blocked_init [[OSend 5]; [OShutdown 1; OPeerWa 7]]) [0; 1; 1; 1; 1; 0]%nat = Some c /\
+    wire c = [MEof] /\ quiescent c /\
+    map res (thr c) = [r_ok 0; r_ok 0 ++ r_ok 0] /\
+    (* and before the WINDOW_ADJUST the writer is not enabled *)
+    crun (init_cfg blocked_init [[OSend 5]; [OShutdown 1; OPeerWa 7]]) [0; 1; 1; 0]%nat = None.
+Proof. eexists. split; [vm_compute; reflexivity|]. repeat split. Qed.
